@@ -6,26 +6,26 @@ P = "engine P: contracts on the real functions (source re-read from /repo on eve
 B = "engine B: the same kind of contracts checked at run time on the real functions over exhaustively enumerated small scopes with an independent oracle - BOUNDED stand-in, never counted as proved"
 KERNELS = {
  "C01": "NumpyFileReader.read_chunk/_get_buffer/__add_newline_to_end/__read_raw_chunk byte conservation (loop invariant; seek and gzip-carry modes; with and without entry marker) for an abstract cut function; DelimitedBuffer.from_raw_buffer cut point (last newline)",
+ "C02": "DelimitedBuffer._get_buffer_extractor / _modify_for_carriage_return: the field table (starts, ends, CR exclusion, entry starts/ends) for any rows x columns, LF and CRLF",
  "C03": "MultiLineFastaBuffer.from_data wrapping arithmetic and line table for any width W>=1 (prefix of the function)",
  "C04": "TextThroughputExtractor._make_contigous / __getitem__ / get_fields_by_range / concatenate (2 and 3 buffers): rows and fields kept, offsets re-based",
  "C06": "AlphabetEncoding._initialize for an arbitrary alphabet of 1, 2 and 4 symbolic symbols against the spec lookup for every byte",
+ "C07": "strops.split (single separator): rows are exactly the text between consecutive separators (telescoping lemma by induction)",
  "C08": "extend_to_size and clip (pointwise clauses)",
  "C09": "GenomicRunLengthArray.from_intervals event/value layout for all four prefix/postfix combinations",
  "C10": "GlobalOffset: to_local_coordinates is the inverse of from_local_coordinates on valid positions, bounds errors, start_ends_from_intervals, to_local_interval never attributes a boundary-crossing interval",
  "C11": "_chunk_entries generator: order and content preserved, every in-loop chunk has exactly n entries (obligations at every yield)",
+ "C12": "GenomeContext._included_groups and GenomeContext.iter_chromosomes as generators with obligations at every yield: j-th table is the group named order(j) or empty, each group consumed once in order, completion implies nothing left over",
  "C13": "trimming/row-locality arithmetic of RollableFunction.rolling_window and kmers.convolution for ragged input and any window >= 1",
  "C14": "ASCII complement table (both cases, involution), complement(ragged), get_reverse_complement(ragged)",
  "C15": "OneLineBuffer._validate (2 and 4 lines per entry) and FastQBuffer._validate: raises iff a record lacks its marker / '+' line, line number of the FIRST offender",
  "C16": "BamBufferExtractor fixed-offset fields and derived variable-field offsets against the SAM spec table, split_cigar, BamBuffer._find_starts (block_size chaining, maximality)",
  "C17": "IndexedFasta.__getitem__ (row/column reshape against the faidx layout predicate), get_contig_lengths",
+ "C18": "the exact decimal digit count (_n_decimal_digits) for every magnitude below 2**63 (19-case split over the real table)",
  "C20": "frame conditions (heap model): str_to_int, str_to_float (callees that overwrite their argument only receive copies), merge_intervals",
 }
 BOUNDED_ONLY = {
- "C02": "column meaning of every supported text format vs spec-level reference parsers",
  "C05": "lazy vs eager lock-step over operation programs",
- "C07": "encoded (ragged) array operations vs Python list-of-strings model over operation programs",
- "C12": "contig synchronisation of grouped streams: every order/subset/chunking/consumer for genomes of up to 4 contigs",
- "C18": "integer/float text conversion at powers of ten, int64 extremes, batch independence, float parsing within 4 ulp",
  "C19": "table operations vs list-of-tuples model over operation programs",
 }
 checks = []
